@@ -88,6 +88,8 @@ type Config struct {
 	IOFor   func(i int) iface.IO
 	SortFor func(i int) iface.EntrySortFn
 	AC      func(replica int) accesscontroller.Interface
+	// ACShared, when set, is called once per world: all replicas get the SAME controller instance (World.SharedAC)
+	ACShared func() accesscontroller.Interface
 	// Conc > 0: LogOptions.Concurrency of every replica (the library default is 16, more than any world here holds)
 	Conc uint
 }
@@ -130,6 +132,8 @@ type World struct {
 	WriterOf []int // current writer per replica (changes with setid)
 	// Partial: some replica has merged a partial copy of another (joinlast); see adopt
 	Partial bool
+	// SharedAC: the one controller instance of all replicas (Config.ACShared)
+	SharedAC accesscontroller.Interface
 }
 
 var writerRank []int
@@ -164,7 +168,7 @@ func NewWorld(cfg *Config) *World {
 	// Replicas that are configured alike are created from ONE options object, as an application with a
 	// "default options" value would: a log must not keep, or write into, what the caller handed it.
 	var sharedOpts *ipfslog.LogOptions
-	if cfg.SortFor == nil && cfg.IOFor == nil && cfg.AC == nil && len(cfg.StartClock) == 0 {
+	if cfg.SortFor == nil && cfg.IOFor == nil && cfg.AC == nil && cfg.ACShared == nil && len(cfg.StartClock) == 0 {
 		sharedOpts = &ipfslog.LogOptions{ID: "X", SortFn: cfg.sortFn()}
 		if cfg.IO != nil {
 			sharedOpts.IO = cfg.IO()
@@ -192,6 +196,12 @@ func NewWorld(cfg *Config) *World {
 		}
 		if cfg.AC != nil {
 			opts.AccessController = cfg.AC(i)
+		}
+		if cfg.ACShared != nil {
+			if w.SharedAC == nil {
+				w.SharedAC = cfg.ACShared()
+			}
+			opts.AccessController = w.SharedAC
 		}
 		if cfg.Conc > 0 {
 			opts.Concurrency = cfg.Conc
